@@ -1201,6 +1201,139 @@ def stage_c_schemas(run, tier):
                                          "first_differing_file": None, "note": "same JSON through the client generated from the inline copy and from the $ref behaves differently on the wire"})
 
 
+# ====================================================================================================================
+# stage C (4): the REFERENCED schema fails after being referenced: by-reference and inline forms must fail alike
+# ====================================================================================================================
+BROKEN_DEFECTS = {
+    "dangling-inner-ref": {"type": "object", "properties": {"product": {"$ref": SREF + "NoSuchSchema"}, "qty": {"type": "integer"}}},
+    "array-without-items": {"type": "object", "properties": {"things": {"type": "array"}, "qty": {"type": "integer"}}},
+    "invalid-default": {"type": "object", "properties": {"qty": {"type": "integer", "default": "not a number"}}},
+}
+# (holder, schema as a function of the position content X)
+BROKEN_HOLDERS = [
+    ("BProp", lambda X: {"type": "object", "properties": {"p": X, "n": {"type": "integer"}}}),
+    ("BItems", lambda X: {"type": "object", "properties": {"lines": {"type": "array", "items": X}}}),
+    ("BNested", lambda X: {"type": "object", "properties": {"grid": {"type": "array", "items": {"type": "array", "items": X}}}}),
+    ("BAddl", lambda X: {"type": "object", "additionalProperties": X}),
+    ("BUnion", lambda X: {"type": "object", "properties": {"u": {"anyOf": [X, {"type": "integer"}]}}}),
+    ("BUnionList", lambda X: {"type": "object", "properties": {"u": {"oneOf": [{"type": "array", "items": X}, {"type": "string"}]}}}),
+    ("BAllOf", lambda X: {"allOf": [X, {"type": "object", "properties": {"extra": {"type": "string"}}}]}),
+    ("BTopList", lambda X: {"type": "array", "items": X}),
+]
+BROKEN_EPS = ["param", "body", "response", "response-list"]
+
+
+def broken_doc(defect, form, order):
+    """form: 'ref' ($ref Broken at every position) | 'inline' (a copy of Broken's schema at every position);
+    order: 'holders-first' (the holders are declared, hence processed, BEFORE the schema that fails) | 'broken-first'"""
+    broken = BROKEN_DEFECTS[defect]
+    X = lambda: {"$ref": SREF + "Broken"} if form == "ref" else copy.deepcopy(broken)
+    S = {"Good": {"type": "object", "properties": {"g": {"type": "string"}}}, "Err": copy.deepcopy(BASE_SCHEMAS["Err"])}
+    if order == "broken-first" and form == "ref":
+        S["Broken"] = copy.deepcopy(broken)
+    for h, mk in BROKEN_HOLDERS:
+        S[h] = mk(X())
+        S["G" + h[1:]] = mk({"$ref": SREF + "Good"})            # healthy control of the same shape
+    S["BUser"] = {"type": "object", "properties": {"b": {"$ref": SREF + "BItems"}, "w": {"type": "string"}}}      # second-level dependant
+    S["GUser"] = {"type": "object", "properties": {"b": {"$ref": SREF + "GItems"}, "w": {"type": "string"}}}
+    if "Broken" not in S and form == "ref":
+        S["Broken"] = copy.deepcopy(broken)
+    paths = {}
+    for h in [x for x, _ in BROKEN_HOLDERS] + ["BUser"]:
+        for pre in ("B", "G"):
+            n = pre + h[1:]
+            paths["/h/" + n] = {"get": {"operationId": "get" + n, "tags": ["t"], "responses": {"200": _ok({"$ref": SREF + n}), "404": _ok({"$ref": SREF + "Err"}, "nf")}}}
+    for kind in BROKEN_EPS:
+        for pre, x in (("B", X()), ("G", {"$ref": SREF + "Good"})):
+            op = {"operationId": pre.lower() + "_" + kind.replace("-", "_"), "tags": ["t"], "responses": {"200": {"description": "ok"}, "404": _ok({"$ref": SREF + "Err"}, "nf")}}
+            if kind == "param":
+                op["parameters"] = [{"name": "k", "in": "query", "schema": {"type": "array", "items": x}}]
+            elif kind == "body":
+                op["requestBody"] = {"required": True, "content": {"application/json": {"schema": x}}}
+            elif kind == "response":
+                op["responses"]["200"]["content"] = {"application/json": {"schema": x}}
+            else:
+                op["responses"]["200"]["content"] = {"application/json": {"schema": {"type": "array", "items": x}}}
+            paths["/e/%s/%s" % (pre, kind)] = {("post" if kind == "body" else "get"): op}
+    return {"openapi": "3.1.0", "info": {"title": "t", "version": "1"}, "paths": paths, "components": {"schemas": S}}
+
+
+def work_broken(args):
+    defect, form, order = args
+    out = {"defect": defect, "form": form, "order": order, "error": None}
+    try:
+        doc = broken_doc(defect, form, order)
+        out["doc"] = doc
+        with gen_dl(doc) as g:
+            if g.exc is not None:
+                out["error"] = "generate raised " + repr(g.exc)
+                return out
+            out["diag_text"] = "\n".join((h or "") + "\n" + (d or "") for _, h, d in g.diag())
+            data, _ = impl.parse_doc(doc)
+            out["classes"] = sorted({str(m.class_info.name) for m in data.models} | {str(e.class_info.name) for e in data.enums})
+            eps = {e.name: e for c in data.endpoint_collections_by_tag.values() for e in c.endpoints}
+            out["endpoints"] = {n: sorted(int(r.status_code) for r in e.responses) for n, e in eps.items()}
+            files = g.files()
+            out["api"] = {k: v.decode("utf-8", "replace") for k, v in files.items() if k.startswith("api/")}
+            ops = [{"op": "import_all"}] + [{"op": "roundtrip", "cls": c, "data": {}} for c in out["classes"]]
+            res = impl.run_client(g.out, ops, timeout=300)
+        if isinstance(res, dict):
+            out["error"] = "runner: " + res.get("fatal", "")[:600]
+            return out
+        out["import_failed"] = res[0].get("failed", {})
+        out["runtime"] = {c: (r.get("dec_exc") or r.get("enc_exc") or r.get("fatal_op")) for c, r in zip(out["classes"], res[1:])}
+    except BaseException as e:  # noqa
+        import traceback
+        out["error"] = "harness worker: " + repr(e) + traceback.format_exc()[-800:]
+    return out
+
+
+def stage_c_broken_target(run, tier):
+    jobs = [(d, f, o) for d in BROKEN_DEFECTS for o in ("holders-first", "broken-first") for f in ("ref", "inline")]
+    with cf.ProcessPoolExecutor(max_workers=12) as ex:
+        results = {(r["defect"], r["form"], r["order"]): r for r in ex.map(work_broken, jobs)}
+    cls_holders = [h for h, _ in BROKEN_HOLDERS if h != "BTopList"]        # (a top-level array component has no class; it is observed through its endpoint)
+    named = cls_holders + ["BUser"] + ["G" + h[1:] for h in cls_holders] + ["GUser", "Good", "Err", "Broken"]
+    for (defect, form, order), r in results.items():
+        case = {"defect": defect, "form": form, "declaration_order": order}
+        run.note_case(case, nontrivial=True, kind="broken-target:" + form)
+        if r["error"]:
+            run.violation("harness-or-generator", {**case, "error": r["error"], "doc": r.get("doc")})
+            continue
+        # (a) whatever survives must import and run (the lazy imports of from_dict only fail when executed)
+        bad_rt = {c: e for c, e in r["runtime"].items() if e and e.get("type") in ("ModuleNotFoundError", "ImportError", "NameError", "AttributeError", "SyntaxError")}
+        if r["import_failed"] or bad_rt:
+            run.violation("oracle", {**case, "doc": r["doc"], "import_failed": r["import_failed"], "runtime_failures": bad_rt, "surviving_classes": r["classes"],
+                                     "note": "a schema that references a FAILED schema survived: its module cannot be imported / from_dict raises (the failure of the referenced schema was not propagated to this user)"})
+        # (b) healthy controls untouched; every removed named schema is named by a diagnostic
+        for n in named:
+            if n.startswith("G") or n == "Err":
+                if n not in r["classes"]:
+                    run.violation("oracle", {**case, "doc": r["doc"], "missing": n, "note": "a healthy schema that does not depend on the failing one was removed"})
+            elif n not in r["classes"] and not (form == "inline" and n == "Broken"):
+                if (SREF[1:] + n) not in r["diag_text"] and n not in r["diag_text"]:
+                    run.violation("oracle", {**case, "doc": r["doc"], "removed": n, "note": "a schema was removed but no diagnostic names it"})
+    # (c) by reference == inline: same surviving named classes, same endpoints with the same response statuses, identical endpoint modules
+    for defect in BROKEN_DEFECTS:
+        for order in ("holders-first", "broken-first"):
+            a, b = results[(defect, "ref", order)], results[(defect, "inline", "holders-first" if order == "holders-first" else "broken-first")]
+            if a["error"] or b["error"]:
+                continue
+            case = {"defect": defect, "declaration_order": order}
+            run.note_case({**case, "check": "ref-vs-inline"}, nontrivial=True, kind="broken-target:compare")
+            sa = sorted(set(a["classes"]) & set(named) - {"Broken"})
+            sb = sorted(set(b["classes"]) & set(named) - {"Broken"})
+            if sa != sb or a["endpoints"] != b["endpoints"]:
+                run.violation("oracle", {**case, "doc_ref": a["doc"], "doc": b["doc"], "survivors_by_reference": sa, "survivors_inline": sb,
+                                         "endpoints_by_reference": a["endpoints"], "endpoints_inline": b["endpoints"], "first_differing_file": None,
+                                         "rewritten_positions": [h for h, _ in BROKEN_HOLDERS] + BROKEN_EPS,
+                                         "note": "the referenced schema fails: the by-reference and the inline document keep different schemas / endpoints / responses"})
+            elif a["api"] != b["api"]:
+                run.violation("oracle", {**case, "doc_ref": a["doc"], "doc": b["doc"], "first_differing_file": first_diff(a["api"], b["api"]),
+                                         "rewritten_positions": [h for h, _ in BROKEN_HOLDERS] + BROKEN_EPS,
+                                         "note": "the referenced schema fails: endpoint modules of the by-reference and the inline document differ"})
+
+
 def stage_b(run, tier):
     terms, meta = [], []
     for f in (stage_b_refstrings, stage_b_bodies, stage_b_params, stage_b_responses):
@@ -1321,6 +1454,7 @@ def _run(run, tier, replay=None):
     stage_c_meta(run, tier)
     stage_c_malformed(run, tier)
     stage_c_schemas(run, tier)
+    stage_c_broken_target(run, tier)
     run.assumptions += [
         "harness/translate/gen_params.py (ast reading of parameter_from_data / add_parameters / _property_from_ref / response_from_data / build_parameters; urllib.parse tables of the running interpreter)",
         "the abstraction of property_from_data / validate_location / _check_parameters_for_conflicts as the parameters build / validate / finish of Refs.add_loop (the theorems hold for ALL such functions; "
